@@ -24,22 +24,22 @@ func (Prop) Budget(tier string) int {
 func (Prop) Describe() core.Description {
 	return core.Description{
 		Level: "fault_enumeration",
-		Rule: "enumerated part (walked completely, every tier): 6 helpers x {V, *P} x 8 behaviours of the type under test x 4 Before x 4 After hook behaviours x 25 predicate kinds (met, unmet, near-miss, one-byte-longer, empty, dot-must-not-cross-newline and three caller-written silent variants) x 3 constraints x 4 positions {only, first, middle, last of 3} (+ TypeHelper variants, + types lacking the interface under both FailNow environments); " +
-			"seeded part: lists of 0-12 cases (one list in 40: 13-64 cases) with tape-chosen combinations, several faults per list, 12 type shapes (V, *P, *V, interface-typed Both holding *P or *Q, string-kinded Str, slice-kinded Bytes, map-kinded Map, integer-kinded Num, uint8-kinded Byte, OnlyM, OnlyU, None), both TestingT environments, optional recording TypeHelper, singleton re-runs of every case. " +
+		Rule: "enumerated part (walked completely, every tier): 6 helpers x {V, *P} x 8 behaviours of the type under test x 4 Before x 4 After hook behaviours (a fifth, panicking with an error value whose Error method cannot be called, has a block of its own) x 25 predicate kinds (met, unmet, near-miss, one-byte-longer, empty, dot-must-not-cross-newline and three caller-written silent variants) x 3 constraints x 4 positions {only, first, middle, last of 3} (+ TypeHelper variants, + types lacking the interface under both FailNow environments); " +
+			"seeded part: lists of 0-12 cases (one list in 40: 13-64 cases) with tape-chosen combinations, several faults per list, 13 type shapes (V, *P, P as a value type with pointer-receiver methods, *V, interface-typed Both holding *P or *Q, string-kinded Str, slice-kinded Bytes, map-kinded Map, integer-kinded Num, uint8-kinded Byte, OnlyM, OnlyU, None), both TestingT environments, optional recording TypeHelper, singleton re-runs of every case. " +
 			"Oracle written from the statement: per case, failure reported <=> applicable and unsatisfied (L2), nothing for inapplicable cases (L4), no panic escapes (L3), type lacking the interface reported (L1), hooks receive their case's list position (L5). " +
 			"A list is non-trivial if a collaborator fault fired in an applicable case; distinct = distinct (helper, shape, position class, constraint, behaviour, hooks, predicate, verdict) tuples reached",
 		Assumptions: []string{
 			"a panic of the type under test counts as an error whose text begins 'panic: <value>\\n' (pinned by the library's own Test_MarshalText_Panic and CHANGELOG 0.8.0)",
 			"two corners the statement leaves open are not generated: an error returned with a non-nil but empty slice; hooks that mutate the case they are handed. A non-empty list for a type lacking the interface is expected to be reported whatever the constraints of its cases (the type is a property of T, not of a case; anchor: interface check on the first case)",
 			"failures are attributed to cases by bracketing recorder events between the scripted collaborator invocations of consecutive cases",
-			"lists longer than 64 cases and types other than the twelve scripted shapes are outside the bound",
+			"lists longer than 64 cases and types other than the thirteen scripted shapes are outside the bound",
 		},
 		Real: []string{"test.MarshalText/Binary/JSON", "test.UnmarshalText/Binary/JSON", "callForCase, safe*, castToFunc, helperNew, helperAssert*", "AnyError/Error/ErrorHasPrefix/ErrorHasSuffix/ErrorMatch", "testify assert"},
 		Stub: []string{"types under test (scripted V, *P, *V, interface-typed Both, Str, Bytes, Map, Num, OnlyM, OnlyU, None)", "Before/After hooks (scripted)", "TestingT (recorder; FailNow returns / exits goroutine)", "TypeHelper (recording)"},
 		Notes: map[string]string{
 			"sim_time_note": "C20 has no clock in it; sim_time_ns is 0 by construction",
 		},
-		RequiredProbesQuick: []string{"panic_recovered_call", "panic_recovered_hook", "error_with_data", "wrong_data_only", "inapplicable_faulty", "goexit_env", "invalid_regexp", "lacking_interface", "lacking_interface_all_inapplicable", "typehelper_used", "nil_receiver", "nil_value_unmarshal", "nil_interface_value", "long_list", "before_hook_adjusts_case", "asymmetric_typehelper_wildcard", "cloning_typehelper", "emptied_not_nil", "listed_nil_value", "second_concrete_type", "listed_empty_data", "json_equivalent_wrong_data", "lenient_equal_method"},
+		RequiredProbesQuick: []string{"panic_recovered_call", "panic_recovered_hook", "error_with_data", "wrong_data_only", "inapplicable_faulty", "goexit_env", "invalid_regexp", "lacking_interface", "lacking_interface_all_inapplicable", "typehelper_used", "nil_receiver", "nil_value_unmarshal", "nil_interface_value", "long_list", "before_hook_adjusts_case", "asymmetric_typehelper_wildcard", "cloning_typehelper", "emptied_not_nil", "listed_nil_value", "second_concrete_type", "listed_empty_data", "json_equivalent_wrong_data", "lenient_equal_method", "panic_value_with_uncallable_error_method", "nil_interface_value_first_case", "listed_nil_input", "pointer_receiver_value_type"},
 	}
 }
 
@@ -55,7 +55,7 @@ const (
 )
 
 // per (helper, shape{V,P}, typeHelper variant) block
-const mainBlock = nBeh * numHooks * numHooks * numPreds * nCons * nPos
+const mainBlock = nBeh * nHook * nHook * numPreds * nCons * nPos
 
 // EnumSize implements core.Property: 6 helpers x 2 shapes x (1 or 2 TypeHelper variants) main
 // blocks, then the nil-receiver block, then the lacking-interface block.
@@ -68,7 +68,98 @@ func (Prop) EnumSize(tier string) int {
 // numWrong x 2 x {right, wrong}; (c) asymmetric TypeHelper with an open payload: 3 unmarshal
 // helpers x {V, *P} x behaviour x position
 func enumExtras() int {
-	return 6*2*nBeh*nPos + 6*2*numWrong*2*2 + 3*2*nBeh*nPos + enumKinds() + enumAdjust2() + enumPreds2() + enumEmptyData()
+	return 6*2*nBeh*nPos + 6*2*numWrong*2*2 + 3*2*nBeh*nPos + enumKinds() + enumAdjust2() + enumPreds2() + enumEmptyData() + enumWave7()
+}
+
+// (h) a value type whose methods all have pointer receivers (6 helpers x env x {1, 3 cases} x
+// behaviour); panics whose value is an error with an uncallable Error method, raised by the
+// call, the Before or the After hook (6 helpers x {V, *P} x 3 x 4 predicates x position); a
+// nil interface value in the first case (6 helpers x env x {1, 3 cases} x 2 constraints); nil
+// input data for the binary unmarshal helper ({V, *P} x behaviour x 3 predicates x position x
+// TypeHelper {0, 1})
+var (
+	badErrPreds  = [...]int{pNone, pAny, pPrefixMet, pExactUnmet}
+	nilDataPreds = [...]int{pNone, pAny, pCustomAccept}
+)
+
+func enumH1() int    { return 6 * 2 * 2 * nBeh }
+func enumH2() int    { return 6 * 2 * 3 * len(badErrPreds) * nPos }
+func enumH3() int    { return 6 * 2 * 2 * 2 }
+func enumH4() int    { return 2 * nBeh * len(nilDataPreds) * nPos * 2 }
+func enumWave7() int { return enumH1() + enumH2() + enumH3() + enumH4() }
+
+func wave7Spec(r int) (ls listSpec, ok bool) {
+	switch {
+	case r < enumH1():
+		c := caseSpec{payload: "x"}
+		c.beh = r % nBeh
+		r /= nBeh
+		long := r%2 == 1
+		r /= 2
+		ls.goexit = r%2 == 1
+		r /= 2
+		ls.enc, ls.dir, ls.shape = r/2, r%2, shPval
+		if c.beh == bPanicAfterSet && ls.dir == dirMarshal {
+			return ls, false
+		}
+		ls.cases = []caseSpec{c}
+		if long {
+			ls.cases = []caseSpec{c, plain, plain}
+		}
+	case r < enumH1()+enumH2():
+		r -= enumH1()
+		c := caseSpec{payload: "x"}
+		pos := r % nPos
+		r /= nPos
+		c.pred = badErrPreds[r%len(badErrPreds)]
+		r /= len(badErrPreds)
+		switch r % 3 {
+		case 0:
+			c.beh = bPanicBadError
+		case 1:
+			c.before = hPanicBadError
+		default:
+			c.after = hPanicBadError
+		}
+		r /= 3
+		ls.shape = r % 2
+		r /= 2
+		ls.enc, ls.dir = r/2, r%2
+		ls.cases = place(c, pos)
+	case r < enumH1()+enumH2()+enumH3():
+		r -= enumH1() + enumH2()
+		c := caseSpec{payload: "x", nilIface: true}
+		own := r%2 == 1
+		r /= 2
+		long := r%2 == 1
+		r /= 2
+		ls.goexit = r%2 == 1
+		r /= 2
+		ls.enc, ls.dir, ls.shape = r/2, r%2, shIface
+		if own {
+			c.constraint = 1 + ls.dir
+		}
+		ls.cases = []caseSpec{c}
+		if long {
+			ls.cases = []caseSpec{c, plain, plain}
+		}
+	default:
+		r -= enumH1() + enumH2() + enumH3()
+		c := caseSpec{payload: "x", nilData: true}
+		ls.typeHelper = r % 2
+		r /= 2
+		pos := r % nPos
+		r /= nPos
+		c.pred = nilDataPreds[r%len(nilDataPreds)]
+		r /= len(nilDataPreds)
+		c.beh = r % nBeh
+		r /= nBeh
+		ls.shape = r % 2
+		ls.enc, ls.dir = kBinary, dirUnmarshal
+		ls.cases = place(c, pos)
+	}
+	normalise(&ls)
+	return ls, true
 }
 
 // (g) cases that expect no data at all: 3 marshal helpers x {V, *P} x behaviour x position
@@ -92,6 +183,9 @@ var kindBehs = [...]int{bRight, bWrong, bError, bErrorWithData, bPanicString, bP
 func enumKinds() int { return 6 * 5 * len(kindBehs) * len(kindPreds) * nPos * 2 * 2 }
 
 func extraSpec(r int) (ls listSpec, ok bool) {
+	if base := enumExtras() - enumWave7(); r >= base {
+		return wave7Spec(r - base)
+	}
 	a := 6 * 2 * nBeh * nPos
 	b := 6 * 2 * numWrong * 2 * 2
 	switch {
@@ -219,7 +313,7 @@ func extraSpec(r int) (ls listSpec, ok bool) {
 func enumNilValue() int { return 3 * nBeh * numPreds * nCons * nPos * 2 }
 
 func enumMain() int    { return 6 * 2 * 2 * mainBlock }
-func enumNil() int     { return 3 * numHooks * numHooks * numPreds * nCons * nPos }
+func enumNil() int     { return 3 * nHook * nHook * numPreds * nCons * nPos }
 func enumLacking() int { return 6 * 3 * 2 * 2 * numBehaviours * 2 }
 
 var plain = caseSpec{payload: "n"}
@@ -252,10 +346,10 @@ func enumSpec(i int) (ls listSpec, ok bool) {
 		c := caseSpec{payload: "x"}
 		c.beh = r % nBeh
 		r /= nBeh
-		c.before = r % numHooks
-		r /= numHooks
-		c.after = r % numHooks
-		r /= numHooks
+		c.before = r % nHook
+		r /= nHook
+		c.after = r % nHook
+		r /= nHook
 		c.pred = r % numPreds
 		r /= numPreds
 		c.constraint = r % nCons
@@ -276,10 +370,10 @@ func enumSpec(i int) (ls listSpec, ok bool) {
 		c := caseSpec{payload: "x", beh: bNilReceiver}
 		enc := r % 3
 		r /= 3
-		c.before = r % numHooks
-		r /= numHooks
-		c.after = r % numHooks
-		r /= numHooks
+		c.before = r % nHook
+		r /= nHook
+		c.after = r % nHook
+		r /= nHook
 		c.pred = r % numPreds
 		r /= numPreds
 		c.constraint = r % nCons
@@ -372,7 +466,7 @@ func classOf(ls listSpec, l *listRun) (nontrivial bool, classes []uint64) {
 		if l.failures[i] > 0 {
 			verdict = 1
 		}
-		h.Add(uint64(ls.enc*2+ls.dir)<<40 | uint64(ls.shape)<<32 | uint64(pos)<<28 | uint64(c.constraint)<<24 | uint64(c.beh)<<16 | uint64(c.before)<<12 | uint64(c.after)<<8 | uint64(c.pred)<<4 | uint64(verdict)<<1 | uint64(ls.typeHelper)<<50 | b2u(c.adjust)<<46 | uint64(c.wrongKind)<<52 | b2u(c.wildcard)<<47 | b2u(c.nilExpect)<<48 | b2u(c.other)<<49 | b2u(c.emptyData)<<55 | b2u(c.nilValue)<<44 | b2u(c.nilIface)<<45)
+		h.Add(uint64(ls.enc*2+ls.dir)<<40 | uint64(ls.shape)<<32 | uint64(pos)<<28 | uint64(c.constraint)<<24 | uint64(c.beh)<<16 | uint64(c.before)<<12 | uint64(c.after)<<8 | uint64(c.pred)<<4 | uint64(verdict)<<1 | uint64(ls.typeHelper)<<50 | b2u(c.adjust)<<46 | uint64(c.wrongKind)<<52 | b2u(c.wildcard)<<47 | b2u(c.nilExpect)<<48 | b2u(c.other)<<49 | b2u(c.emptyData)<<55 | b2u(c.nilValue)<<44 | b2u(c.nilIface)<<45 | b2u(c.nilData)<<56)
 		classes = append(classes, uint64(h))
 	}
 	if !ls.hasInterface() && len(ls.cases) > 0 {
@@ -394,6 +488,9 @@ func b2u(b bool) uint64 {
 func probes(res *core.Result, ls listSpec, l *listRun) {
 	if ls.goexit {
 		res.Probes.Inc("goexit_env")
+	}
+	if ls.shape == shPval {
+		res.Probes.Inc("pointer_receiver_value_type")
 	}
 	if !ls.hasInterface() {
 		res.Probes.Inc("lacking_interface")
@@ -434,6 +531,14 @@ func probes(res *core.Result, ls listSpec, l *listRun) {
 		if c.before == hPanic || c.after == hPanic {
 			res.Probes.Inc("panic_recovered_hook")
 			res.Faults.Inc("hook_panic")
+		}
+		if c.before == hPanicBadError || c.after == hPanicBadError {
+			res.Probes.Inc("panic_value_with_uncallable_error_method")
+			res.Faults.Inc("hook_panic_uncallable_error")
+		}
+		if i == 0 && c.nilIface {
+			res.Probes.Inc("nil_interface_value_first_case")
+			res.Faults.Inc("first_case_nil_interface_value")
 		}
 		if c.before == hError || c.after == hError {
 			res.Faults.Inc("hook_error")
@@ -489,6 +594,13 @@ func probes(res *core.Result, ls listSpec, l *listRun) {
 		if c.emptyData {
 			res.Probes.Inc("listed_empty_data")
 		}
+		if c.nilData {
+			res.Probes.Inc("listed_nil_input")
+		}
+		if c.beh == bPanicBadError {
+			res.Probes.Inc("panic_value_with_uncallable_error_method")
+			res.Faults.Inc("call_panic_uncallable_error")
+		}
 		if c.beh == bWrong && c.wrongKind == wJSONEquivalent {
 			res.Probes.Inc("json_equivalent_wrong_data")
 		}
@@ -507,7 +619,7 @@ func finish(res *core.Result, ls listSpec, o core.RunOpts, extraTrace []string) 
 	h := core.NewHash()
 	h.Add(uint64(ls.enc*2+ls.dir)<<8 | uint64(ls.shape)<<4 | b2u(ls.goexit)<<1 | uint64(ls.typeHelper)<<2)
 	for _, c := range ls.cases {
-		h.Add(uint64(c.constraint)<<24 | uint64(c.beh)<<16 | uint64(c.before)<<12 | uint64(c.after)<<8 | uint64(c.pred) | b2u(c.nilValue)<<28 | b2u(c.nilIface)<<29 | b2u(c.adjust)<<30 | uint64(c.wrongKind)<<32 | b2u(c.wildcard)<<31 | b2u(c.nilExpect)<<36 | b2u(c.other)<<37 | b2u(c.emptyData)<<38)
+		h.Add(uint64(c.constraint)<<24 | uint64(c.beh)<<16 | uint64(c.before)<<12 | uint64(c.after)<<8 | uint64(c.pred) | b2u(c.nilValue)<<28 | b2u(c.nilIface)<<29 | b2u(c.adjust)<<30 | uint64(c.wrongKind)<<32 | b2u(c.wildcard)<<31 | b2u(c.nilExpect)<<36 | b2u(c.other)<<37 | b2u(c.emptyData)<<38 | b2u(c.nilData)<<39)
 	}
 	for _, e := range l.events {
 		h.AddString(e.what)
@@ -561,7 +673,7 @@ func (Prop) RunEnum(i int, o core.RunOpts) *core.Result {
 	return finish(res, ls, o, []string{fmt.Sprintf("enumeration index %d", i)})
 }
 
-var shapeWeights = [...]int{shV, shV, shV, shP, shP, shP, shOnlyM, shOnlyU, shNone, shIface, shIface, shPV, shPV, shStr, shStr, shBytes, shBytes, shMap, shMap, shNum, shNum, shByte}
+var shapeWeights = [...]int{shV, shV, shV, shP, shP, shP, shOnlyM, shOnlyU, shNone, shIface, shIface, shPV, shPV, shStr, shStr, shBytes, shBytes, shMap, shMap, shNum, shNum, shByte, shPval, shPval}
 
 func genCase(t *core.Tape) caseSpec {
 	c := caseSpec{}
@@ -588,6 +700,7 @@ func genCase(t *core.Tape) caseSpec {
 	c.nilExpect = t.Bool(1, 6)
 	c.other = t.Bool(1, 3)
 	c.emptyData = t.Bool(1, 8)
+	c.nilData = t.Bool(1, 8)
 	c.payload = [...]string{"p", "", "payload with spaces", "{\"k\":1}", "\x00\xff", "~", "line\n", "100% %s"}[t.Choose(8)]
 	return c
 }
